@@ -6,7 +6,7 @@ PROP = "C04"
 
 
 def work(spec):
-    return e1.work_equiv(spec)
+    return e1.work_equiv(spec, total=bool((spec.get("tags") or {}).get("legal")))
 
 
 def run(tier, seed):
